@@ -502,7 +502,8 @@ public:
 		, mOutput(nullptr)
 	{
 		static_assert(TMode == SerializeMode::Load, "BitSerializer. This data type can be used only in 'Load' mode.");
-		if (mRootJson.Parse(encodedInputStr.data(), encodedInputStr.length()).HasParseError()) {
+		// Iterative parsing avoids stack overflow on deeply nested input
+		if (mRootJson.template Parse<rapidjson::kParseIterativeFlag>(encodedInputStr.data(), encodedInputStr.length()).HasParseError()) {
 			throw ParsingException(rapidjson::GetParseError_En(mRootJson.GetParseError()), 0, mRootJson.GetErrorOffset());
 		}
 	}
@@ -524,7 +525,7 @@ public:
 		rapidjson::IStreamWrapper isw(encodedInputStream);
 		rapidjson::AutoUTFInputStream<uint32_t, rapidjson::IStreamWrapper> eis(isw);
 		// The source encoding is detected at run time (the stream yields code units of the detected UTF type)
-		if (mRootJson.template ParseStream<rapidjson::kParseDefaultFlags, rapidjson::AutoUTF<uint32_t>>(eis).HasParseError()) {
+		if (mRootJson.template ParseStream<rapidjson::kParseIterativeFlag, rapidjson::AutoUTF<uint32_t>>(eis).HasParseError()) {
 			throw ParsingException(rapidjson::GetParseError_En(mRootJson.GetParseError()), 0, mRootJson.GetErrorOffset());
 		}
 	}
